@@ -104,9 +104,18 @@ class VerilogTranslationPass( BasePass ):
 
   def __call__( s, top ):
     """Translate a PyMTL component hierarhcy rooted at ``top``."""
+    s.check_not_locked_in_simulation( top )
     s.top = top
     s.translator = VTranslator( s.top )
     s.traverse_hierarchy( top )
+
+  def check_not_locked_in_simulation( s, top ):
+    # In a design that is locked in simulation the signals have been
+    # replaced by their values: there is nothing left to translate, and
+    # purely structural components would come out without any port
+    if getattr( getattr( top, '_sim', None ), 'locked_simulation', False ):
+      raise RuntimeError( f"{top} has already been prepared for simulation: its signals "
+                          f"have been replaced by their values. Please translate a fresh instance." )
 
   def get_translation_config( s ):
     from pymtl3.passes.backends.verilog.translation.VerilogTranslationConfigs import (
